@@ -59,13 +59,24 @@ func c08QUIC(c *c08Ctx) {
 		c.r.Inconclusive("c08 quic: raw client cannot connect: " + err.Error())
 		return
 	}
-	defer conn.CloseWithError(0, "")
+	defer func() { conn.CloseWithError(0, "") }()
+	// Streams the server abandons with unread data keep counting against this connection's stream limit; once opening a
+	// stream stalls, carry on over a fresh connection instead of waiting out every further attempt.
+	redial := func() {
+		conn.CloseWithError(0, "")
+		dctx, dcf := context.WithTimeout(ctx, 5*time.Second)
+		if c2, err := quic.DialAddr(dctx, target, tlsConf, &quic.Config{EnableDatagrams: true}); err == nil {
+			conn = c2
+			c.r.Count("quic_reconnects", 1)
+		}
+		dcf()
+	}
 	frame := func(l uint32, body []byte) []byte {
 		b := make([]byte, 4, 4+len(body))
 		binary.BigEndian.PutUint32(b, l)
 		return append(b, body...)
 	}
-	n := pick(c.r, 300, 6000)
+	n := pick(c.r, 300, 1500)
 	for i := 0; i < n; i++ {
 		var in []byte
 		kind := ""
@@ -94,9 +105,11 @@ func c08QUIC(c *c08Ctx) {
 			in, kind = frame(uint32(10), g.Bytes(10)), "valid-ask"
 		}
 		c.record("quicswarm/"+kind, in)
-		sctx, scf := context.WithTimeout(ctx, 2*time.Second)
+		sctx, scf := context.WithTimeout(ctx, 500*time.Millisecond)
 		if uni {
-			if s, err := conn.OpenUniStreamSync(sctx); err == nil {
+			if s, err := conn.OpenUniStreamSync(sctx); err != nil {
+				redial()
+			} else {
 				s.Write(in)
 				if reset {
 					s.CancelWrite(7)
@@ -105,7 +118,9 @@ func c08QUIC(c *c08Ctx) {
 				}
 			}
 		} else {
-			if s, err := conn.OpenStreamSync(sctx); err == nil {
+			if s, err := conn.OpenStreamSync(sctx); err != nil {
+				redial()
+			} else {
 				s.Write(in)
 				if reset {
 					s.CancelWrite(7)
